@@ -31,6 +31,7 @@ type Contract struct {
 	File     string
 	fn       *ssa.Function
 	macros   []*macro
+	relpkg   string
 	Locals   map[string]string // loop var -> "name type, ..." declarations (unused when CheckExpr resolves them)
 }
 
@@ -47,8 +48,23 @@ type Clause struct {
 	err    error
 }
 
+// pkgMacros: `define` macros per package directory.
+var pkgMacros = map[string][]*macro{}
+
 // assumedPure: value names (as produced by valueName) of callbacks assumed to have no effect.
 var assumedPure = map[string]string{}
+
+// assumedWrites: heap-name prefixes an assumed-pure callback may nevertheless write.
+var assumedWrites = map[string][]string{}
+
+func assumedWritesOf(name string) []string {
+	for k, v := range assumedWrites {
+		if name == k || strings.HasSuffix(name, "."+k) {
+			return v
+		}
+	}
+	return nil
+}
 
 func isAssumedPure(name string) bool {
 	for k := range assumedPure {
@@ -155,8 +171,10 @@ func parseContractFile(path, relpkg string) ([]*Contract, error) {
 	var macros []*macro
 	var lastMacro *macro
 	defer func() {
+		// macros are shared by all contract files of the package
+		pkgMacros[relpkg] = append(pkgMacros[relpkg], macros...)
 		for _, c := range out {
-			c.macros = macros
+			c.relpkg = relpkg
 		}
 	}()
 	sc := bufio.NewScanner(fh)
@@ -195,7 +213,14 @@ func parseContractFile(path, relpkg string) ([]*Contract, error) {
 		case "assume-pure":
 			// a function-valued field or variable whose calls have no effect on program state
 			// (user-supplied callbacks that the library treats as pure): an assumption, reported
-			assumedPure[rest] = path
+			// "NAME" or "NAME writes PREFIX PREFIX ..." (heap-name prefixes the callback may write)
+			fs := strings.Fields(rest)
+			if len(fs) > 0 {
+				assumedPure[fs[0]] = path
+				if len(fs) > 2 && fs[1] == "writes" {
+					assumedWrites[fs[0]] = fs[2:]
+				}
+			}
 			last = nil
 		case "define":
 			mh := macroHead.FindStringSubmatch(rest)
@@ -579,7 +604,7 @@ func (P *Program) prepare(cl *Clause, fn *ssa.Function, pos token.Pos) error {
 	cl.done = true
 	text := cl.Text
 	if ct := P.contractFor(fn); ct != nil {
-		text = expandMacros(text, ct.macros)
+		text = expandMacros(text, pkgMacros[ct.relpkg])
 	}
 	src := rewriteImplies(text)
 	e, err := parser.ParseExpr(src)
@@ -790,7 +815,7 @@ func (e *specEnv) eval(x ast.Expr) Term {
 			if !e.f.vc.watch[w] {
 				unsup("spec: %q is used in a clause but not declared with 'watch'", w)
 			}
-			return e.now.get(fmt.Sprintf("G$%s$%s$%s", g[0], w, g[2]), e.tt().sortOf(e.typeOf(p.X)))
+			return e.ghostVal(g[0], w, g[2], e.tt().sortOf(e.typeOf(p.X)))
 		}
 	}
 	if t, ok := e.constOf(x); ok {
@@ -1444,7 +1469,7 @@ func (e *specEnv) call(n *ast.CallExpr) Term {
 			}
 			w := e.watchName(n.Args[0])
 			k := e.intArg(n.Args[1])
-			return e.now.get(fmt.Sprintf("G$%s$%s$%d", kind, w, k), tt.sortOf(e.typeOf(n)))
+			return e.ghostVal(kind, w, fmt.Sprint(k), tt.sortOf(e.typeOf(n)))
 		case "bytesEq":
 			a, b := e.eval(n.Args[0]), e.eval(n.Args[1])
 			ia, ib := e.f.byteInner(e.st(), a), e.f.byteInner(e.st(), b)
@@ -1513,12 +1538,27 @@ func (e *specEnv) call(n *ast.CallExpr) Term {
 			e.f.st = saved
 			in := mkAnd(mkNot(mkEq(m, i64(0))), mkSelect(dom, bv, SBool))
 			if hasRefs(mt.Elem()) {
-				// every stored value was allocated before the last write to the map's value heap
+				// axiom about this state's map heaps: every stored value was allocated before the
+				// last write to the value heap (asserted once per heap version, outside the binder)
 				e.f.st = e.st()
 				_, vn, _, _, vs, _, _, es := e.f.mapHeaps(mt)
-				val := mkSelect(mkSelect(e.f.st.get(vn, vs), m, arraySort(ks, es)), bv, es)
-				in = mkAnd(in, tt.typeInv(val, mt.Elem(), e.f.st.get("A$"+vn, SBV64)))
+				V := e.f.st.get(vn, vs)
+				D := e.f.st.get(dn, ds)
+				bound := e.f.st.get("A$"+vn, SBV64)
 				e.f.st = saved
+				key := "mapax:" + V.S + "|" + D.S
+				if !vc.declared[key] {
+					vc.declared[key] = true
+					vc.names["q"]++
+					r := Term{fmt.Sprintf("q!mr%d", vc.names["q"]), SBV64}
+					k2 := Term{fmt.Sprintf("q!mk%d", vc.names["q"]), ks}
+					val := mkSelect(mkSelect(V, r, arraySort(ks, es)), k2, es)
+					ax := fmt.Sprintf("(forall ((%s (_ BitVec 64)) (%s %s)) (=> (select (select %s %s) %s) %s))", r.S, k2.S, ks, D.S, r.S, k2.S, tt.typeInv(val, mt.Elem(), bound).S)
+					saveDepth := vc.binderDepth
+					vc.binderDepth = 0
+					vc.assumeGlobal(Term{ax, SBool})
+					vc.binderDepth = saveDepth
+				}
 			}
 			body := e.eval(ret.Results[0])
 			vc.binderDepth--
@@ -1658,6 +1698,17 @@ func (e *specEnv) pureCall(fobj *types.Func, recvExpr ast.Expr, n *ast.CallExpr)
 	vc.obligs = vc.obligs[:nObl]
 	f.st, vc.reach = savedSt, savedReach
 	return rs, true
+}
+
+// ghostVal reads the k-th argument/result of the last call of w; unknown if an unrecorded call may have happened since.
+func (e *specEnv) ghostVal(kind, w, k string, sort Sort) Term {
+	v := e.now.get(fmt.Sprintf("G$%s$%s$%s", kind, w, k), sort)
+	t := e.now.get("G$tainted$"+w, SBool)
+	if t.S == "false" {
+		return v
+	}
+	u := e.f.vc.declareFresh("G$unknown", sort)
+	return mkIte(t, u, v)
 }
 
 func (e *specEnv) watchName(x ast.Expr) string {
